@@ -335,9 +335,11 @@ static void run_single_task(const Plan& p, ExecHooks hooks) {
   ex.hooks = hooks;
   if (!p.tasks.empty()) {
     caller_locale_install(p.tasks[0].tloc);
+    if (hooks.purity_monitors) procstate_capture();
     for (auto& op : p.tasks[0].ops) ex.run_op(op);
   }
   ex.release_all();
+  if (hooks.purity_monitors) procstate_final();
   caller_locale_remove();
   std::vector<Exec*> v{&ex};
   op_begin(0, -1, OK_FREE, "(end of run)");
